@@ -347,6 +347,10 @@ Fixpoint attach_all (st : state) (n : N) (cs : list N) : state * bool :=
     else (st, false)
   end.
 
+(* a conversion succeeds when the stream is in the job's index snapshot and the converter answers it properly *)
+Definition conv_ok (bad : list (N * N)) (nx : N) (c i : N) : bool :=
+  (i <? nx) && negb (existsb (fun p => (fst p =? c) && (snd p =? i)) bad).
+
 (* ---------------------------------------------------------------- actions *)
 Inductive jobkind := JImport | JTag | JConvert | JMerge.
 
@@ -360,7 +364,7 @@ Inductive action :=
 | ASetConv (n : N) (cs : list N)
 | ABodyImport (r : iresp)
 | ABodyTag (truth : list (N * N))            (* per tag: ids on which its definition holds in the job's snapshot *)
-| ABodyConvert
+| ABodyConvert (bad : list (N * N))             (* (converter, stream) pairs whose conversion fails (twice): discarded *)
 | ABodyMerge
 | AComplete (k : jobkind)
 | AViewOpen (v : N)
@@ -512,15 +516,16 @@ Definition step (k : kf) (pick : N) (a : action) (st : state) : state :=
       end
     | None => st
     end
-  | ABodyConvert =>
+  | ABodyConvert bad =>
     match jconv st with
     | Some j =>
       if cj_done j then st else
       (* per (converter, stream): alreadyCached -> dropped from the set; else converted at the snapshot version *)
-      (* a stream that is in no index of the snapshot fails twice and is discarded (the unrepaired code waits forever) *)
+      (* a stream that is in no index of the snapshot, or whose conversion fails (Converter.Data returns an error: the
+         process is killed), fails twice and is discarded (the unrepaired code waited forever for a missing stream) *)
       let sets' := map (fun cs => (fst cs, fold_left (fun a i => match cache st (fst cs) i with
                                                                  | Some _ => a
-                                                                 | None => if i <? cj_next j then add1 i a else a end)
+                                                                 | None => if conv_ok bad (cj_next j) (fst cs) i then add1 i a else a end)
                                                       (elems (snd cs)) 0)) (cj_sets j) in
       let cache' := fun c i => match cache st c i with
                                | Some v => Some v
